@@ -61,6 +61,22 @@ SentMsgs(stim) == LET sc == stim.script IN
 FinalCode(stim) == IF stim.script.end.ok THEN 0 ELSE stim.script.end.code
 ReqMsgsSeen(stim) == stim.req.msgs
 
+(* ---- message size limits configured on the generated client / server (C06 at call level; identity encoding only) *)
+FirstOver(msgs, lim) == IF lim < 0 THEN 0 ELSE SelectInSeq(msgs, LAMBDA m : Len(m) > lim)
+ReqCut(stim) == LET a == FirstOver(stim.req.msgs, stim.server.max_dec) b == FirstOver(stim.req.msgs, stim.client.max_enc) IN
+                IF a = 0 THEN b ELSE IF b = 0 THEN a ELSE Min2(a, b)
+RespCut(stim) == LET sent == SentMsgs(stim) a == FirstOver(sent, stim.server.max_enc) b == FirstOver(sent, stim.client.max_dec) IN
+                 IF a = 0 THEN b ELSE IF b = 0 THEN a ELSE Min2(a, b)
+LimitHit(stim) == ReqCut(stim) # 0 \/ RespCut(stim) # 0
+\* the call ends with OUT_OF_RANGE; every message before the offending one is still delivered, in order
+LimitClauses(stim, cli, srvMsgs, srvSeen) ==
+  LET rc == ReqCut(stim) pc == RespCut(stim) IN
+  << <<"C06.OverLimitEndsTheCall", ~cli.ok>>,
+     <<"C06.OverLimitIsOutOfRange", ~cli.ok => cli.st.code = OUT_OF_RANGE>>,
+     <<"C06.EarlierRequestMessagesDelivered", (rc # 0 /\ srvSeen) => srvMsgs = SubSeq(stim.req.msgs, 1, rc - 1)>>,
+     <<"C06.OversizeRequestNeverReachesHandler", (rc # 0 /\ Single(stim.shape) /\ stim.shape = "unary") => ~srvSeen>>,
+     <<"C06.EarlierResponseMessagesDelivered", (rc = 0 /\ pc # 0 /\ ~Single(stim.shape)) => cli.msgs = SubSeq(SentMsgs(stim), 1, pc - 1)>> >>
+
 (* ---- request head (C03, C05 client side, C08) *)
 ReqHeadClauses(stim, h, reqMeta) ==
   << <<"C03.PostHttp2", h.method = "POST" /\ h.version = "HTTP/2.0">>,
